@@ -6,7 +6,7 @@
     page data per physical type, read-side Value.hash). *)
 From Coq Require Import List NArith ZArith Bool Arith Lia.
 From PQ Require Import Bloom.XXHash Bloom.Filter Bloom.Hashing
-  Bloom.FilterProofs Bloom.XXHashProofs Bloom.HashingProofs.
+  Bloom.FilterProofs Bloom.XXHashProofs Bloom.HashingProofs Bloom.OrderProofs.
 Import ListNotations.
 Open Scope N_scope.
 
@@ -162,3 +162,32 @@ Proof. repeat constructor. Qed.
 Example C07_ex_xxh64_vectors :
   xxh64 [] = 17241709254077376921 /\ xxh64 [97] = 15154266338359012955.
 Proof. vm_compute. split; reflexivity. Qed.
+
+(** File level: for every non-boolean type the stored filter is the fold of
+    insert over the read-side hashes of all values of the chunk, so it depends
+    only on the set of values: the page-by-page, from-dictionary and
+    re-read-pages strategies, any page boundaries, any order and the
+    dictionary's removal of duplicates all store the same bytes.  (Boolean
+    pages may add the key of false for the padding bits of a partial byte.) *)
+Theorem C07_file_level : forall (t : ptype) (n : nat) (pages : list (list value)),
+  t <> TBoolean -> Forall (Forall (typed t)) pages ->
+  chunk_filter n t pages = filter_insert_bulk (empty_filter n) (map hash_read (concat pages)).
+Proof. exact chunk_filter_fold. Qed.
+Print Assumptions C07_file_level.
+
+Theorem C07_file_level_same_values : forall (t : ptype) (n : nat) (pages pages' : list (list value)),
+  t <> TBoolean ->
+  Forall (Forall (typed t)) pages -> Forall (Forall (typed t)) pages' ->
+  incl (concat pages) (concat pages') -> incl (concat pages') (concat pages) ->
+  chunk_filter n t pages = chunk_filter n t pages'.
+Proof. exact chunk_filter_same_values. Qed.
+Print Assumptions C07_file_level_same_values.
+
+Theorem C07_insert_order_irrelevant : forall (xs ys : list N) (f : filter),
+  incl xs ys -> incl ys xs -> filter_insert_bulk f xs = filter_insert_bulk f ys.
+Proof. exact bulk_same_set. Qed.
+Print Assumptions C07_insert_order_irrelevant.
+
+Example C07_ex_file_level :
+  chunk_filter 2 TInt32 [[VInt32 5; VInt32 9]; [VInt32 5]] = chunk_filter 2 TInt32 [[VInt32 9; VInt32 5]].
+Proof. vm_compute. reflexivity. Qed.
